@@ -1200,6 +1200,31 @@ theorem folded_lookup_witness :
     lookupExact binds (fun _ => true) [83, 101, 116] (some 2) = true := by
   decide
 
+/-- **C02.9f `restart_late_cleanup_serves`** a restarted informer — same binding, same factory index,
+a fresh informer id, as `newResourceInformer` draws it — is served for EVERY order of the two
+goroutines involved: the clean-up of the old informer (`FactoryStore.Stop old`) may run at any
+point, before or after the new informer has registered, any number of other informers come and go. -/
+theorem restart_late_cleanup_serves (pre mid post : List FOp) (old new : Nat) (idx : Key)
+    (hne : old ≠ new) (hmid : FOp.stop new idx ∉ mid) (hpost : FOp.stop new idx ∉ post) :
+    fsServed (fsRun [] (pre ++ [.start new idx] ++ (mid ++ [.stop old idx] ++ post))) new idx = true := by
+  apply factory_store_serves_users
+  intro hm
+  simp only [List.mem_append, List.mem_cons, List.not_mem_nil, or_false] at hm
+  rcases hm with (hm | hm) | hm
+  · exact hmid hm
+  · injection hm with h1 _; exact hne h1.symm
+  · exact hpost hm
+
+/-- Witness (the informer id is a function of monitor id, namespace and name — not the code): the
+restarted informer carries the id of the one it replaces; when the old clean-up runs after the new
+registration it removes the new handler and the factory with it. In the other order nothing shows. -/
+theorem same_id_restart_witness :
+    let x : Key := ⟨1, 1, 0⟩
+    fsServed (fsRun [] [.start 7 x, .start 7 x, .stop 7 x]) 7 x = false ∧
+    fsServed (fsRun [] [.start 7 x, .stop 7 x, .start 7 x]) 7 x = true ∧
+    fsServed (fsRun [] [.start 7 x, .start 8 x, .stop 7 x]) 8 x = true := by decide
+
+
 end SixthWave
 
 end ShellOp.Snapshot.C02
